@@ -1,4 +1,5 @@
 import ScnrVerif.Props.C05
+import ScnrVerif.Proofs.FullMode
 /-!
 # C04 — a lookahead gates its pattern and is never consumed
 
@@ -84,5 +85,46 @@ example : findFrom exPos exCm 0 [97, 99] = none := by decide
 example : findFrom exPos exCm 0 [97] = none := by decide
 example : findFrom exNeg exCm 0 [97, 98] = none := by decide
 example : findFrom exNeg exCm 0 [97] = some (1, 1) := by decide
+
+/-! ## Track A: the trailing-context rule at pattern level, for every pattern list
+
+`compileFull ps` is the model of `CompiledDfa::try_from_patterns` (compiled mode automaton plus one
+minimized automaton per lookahead); with the compiler model proved correct the automaton-level
+candidates are the pattern-level ones (`mem_specCands_full`), so C04 and C05 hold for the model of
+the whole pipeline without any per-program hypothesis. -/
+
+/-- **C04 for all programs**: for every list of patterns with optional lookaheads (distinct token
+    types), every class function and every input, the model of `find_from` on the compiled mode
+    reports nothing iff there is no pattern-level candidate, and otherwise a candidate (a non-empty
+    prefix matched by the reported pattern, ending at the reported offset, whose lookahead condition
+    holds on the rest and never counts into the token) that maximises end + lookahead length and,
+    among those, is listed first -/
+theorem end_to_end_lookahead (ps : List CPat) (hn : (ps.map (·.tid)).Nodup) (cm : Nat → Nat → Bool)
+    (w : List Nat) :
+    match findFrom (compileFull ps) cm 0 w with
+    | none => ∀ k, ¬ PCand cm ps 0 w k
+    | some (t, e) => ∃ k, PCand cm ps 0 w k ∧ k.tid = t ∧ k.endPos = e ∧
+        ∀ k', PCand cm ps 0 w k' → k'.extent < k.extent ∨
+          (k'.extent = k.extent ∧ (ps.map (·.tid)).idxOf k.tid ≤ (ps.map (·.tid)).idxOf k'.tid) := by
+  have h := findFrom_specFindOK (compileFull ps) cm 0 w
+  have hprio : (compileFull ps).dfa.prio = ps.map (·.tid) := by
+    simp [compileFull, compileMode, minimize, createFromPartition, compilePre, buildDfa, mkDfa, List.map_map]
+  cases hr : findFrom (compileFull ps) cm 0 w with
+  | none =>
+    rw [hr] at h
+    simp only [specFindOK, List.isEmpty_iff] at h
+    intro k hk
+    have := (mem_specCands_full ps hn cm 0 w k).mpr hk
+    rw [h] at this; cases this
+  | some r =>
+    obtain ⟨t, e⟩ := r
+    rw [hr] at h
+    simp only [specFindOK, List.any_eq_true, Bool.and_eq_true, beq_iff_eq, List.all_eq_true] at h
+    obtain ⟨k, hk, ⟨ht, he⟩, hall⟩ := h
+    refine ⟨k, (mem_specCands_full ps hn cm 0 w k).mp hk, ht, he, ?_⟩
+    intro k' hk'
+    have := hall k' ((mem_specCands_full ps hn cm 0 w k').mpr hk')
+    simp only [candGe, Bool.or_eq_true, decide_eq_true_eq, Bool.and_eq_true, beq_iff_eq, Dfa.prioOf, hprio] at this
+    exact this
 
 end Scnr.C04
